@@ -1,6 +1,6 @@
 #!/bin/bash
 # evaluate all deliverables of a mutation agent: evalall.sh <ID> [checks...]
 ID=$1; shift
-O=/tmp/mut/$ID.out
+O=${OUTDIR:-/tmp/mut/$ID.out}
 [ -f $O/patch.diff ] && /verif/bin/evalmut.sh $ID $O/patch.diff $O/demo_test.go $O/meta.json $ID-agent${ROUND:-}-1 "$@" 2>&1 | grep "^demo on\|^bin/check\|^RESULT\|VIOLATION" | cut -c1-220
 [ -f $O/patch2.diff ] && /verif/bin/evalmut.sh $ID $O/patch2.diff $O/demo2_test.go $O/meta2.json $ID-agent${ROUND:-}-2 "$@" 2>&1 | grep "^demo on\|^bin/check\|^RESULT\|VIOLATION" | cut -c1-220
